@@ -26,6 +26,33 @@ def run(fx, rep, tier):
     rule_mirror(fx, rep)
     rule_pack(fx, rep)
     rule_bound(fx, rep)
+    rule_cone(fx, rep)
+
+
+def rule_cone(fx, rep):
+    """'For every legal position ... evaluation completes': the panic sites (table indexing, arithmetic, unwraps) in the
+    call-graph cone of eval::eval are discharged exactly as in C04-CONE - same interval arguments and class table; in
+    particular a mobility / king-zone count indexes its table only if the popcount bound of the counted set (attack-set
+    geometry, `&` = min, `|` = sum) is below the table's length (seed C16-5b: king zone widened by the king's own square)."""
+    import core
+    import pC04
+    roots = [b.name for b in fx.fn_bodies() if norm(b.name) in ("engine::eval::eval", "engine::eval::eval_components") or norm(b.name).startswith("engine::eval::eval::<")]
+    if not roots:
+        roots = [fx.one("eval::eval").name]
+    sub = type(rep)(rep.prop, rep.tier)
+    q = core.QUIET
+    core.QUIET = True
+    try:
+        pC04.run_cone(fx, sub, "C16-CONE", roots, pC04.exempt_roots(fx), 20)
+    finally:
+        core.QUIET = q
+    for v in sub.violations:
+        rep.violation("C16-CONE", v["key"], v["msg"], v["site"])
+    rep.obligations += sub.obligations
+    rep.discharged += sub.discharged
+    rep.analysed["C16-CONE_cone_bodies"] = sub.analysed.get("C16-CONE_cone_bodies")
+    r = sub.rules[-1]
+    rep.rule("C16-CONE", r["instances"], 20, not sub.violations, "panic sites in the evaluation's cone (shared with C04-CONE)")
 
 
 # ---- C16-BLEND -----------------------------------------------------------------------------
@@ -151,6 +178,56 @@ def table_stores(fx, body, static_suffix):
             idx = [body.expr({"l": p["idx"], "p": []}, expand_named=True, at=bb) for p in s["lhs"]["p"] if isinstance(p, dict) and "idx" in p]
             val = body.expr(s["rv"].get("op"), expand_named=True, at=bb) if s["rv"]["k"] == "use" else None
             out.append((idx, val, s.get("line")))
+    return out
+
+
+def term_loops(fx):
+    """[(body, next_block, loop_blocks, carried_locals)] for every iterator loop in the evaluation's term functions: carried =
+    locals initialised before the loop and written again inside it (assignment, call result, or `&mut` taken), iterators
+    excluded."""
+    roots = [b.name for b in fx.fn_bodies() if norm(b.name) == "engine::eval::eval" or norm(b.name).startswith("engine::eval::eval::<")]
+    if not roots:
+        roots = [fx.one("eval::eval").name]
+    out = []
+    for nm in sorted(fx.cone(roots)):
+        b = fx.bodies[nm]
+        if not norm(nm).startswith("engine::eval::") or "::tests::" in nm or b.kind == "Closure":
+            continue
+        live = b.live_blocks()
+        for nb, t in b.calls():
+            cn = norm(callee_name(t) or "")
+            if not (cn.endswith("Iterator>::next") or cn.endswith("Iterator::next")):
+                continue
+            loop = {x for x in b.reachable(nb) if nb in b.reachable(x)} & live
+            if len(loop) < 2:
+                continue
+            # the iterator itself (followed through the reborrows handed to next())
+            iters = set()
+            dq = [a["pl"]["l"] for a in t["args"] if "pl" in a]
+            while dq:
+                l = dq.pop()
+                if l in iters:
+                    continue
+                iters.add(l)
+                for rec in b.defs().get(l, []):
+                    if rec[0] == "stmt" and rec[3]["k"] == "assign" and rec[3]["rv"]["k"] in ("ref", "use") and "pl" in (rec[3]["rv"].get("pl") and rec[3]["rv"] or rec[3]["rv"].get("op") or {}):
+                        src = rec[3]["rv"].get("pl") or rec[3]["rv"]["op"]["pl"]
+                        dq.append(src["l"])
+            written_in, written_out = set(), set()
+            for bb, j, st in b.stmts():
+                if st["k"] != "assign":
+                    continue
+                tgt = None
+                if not (st["lhs"].get("p") and st["lhs"]["p"][0] == "*"):
+                    tgt = st["lhs"]["l"]
+                    (written_in if bb in loop else written_out).add(tgt)
+                rv = st["rv"]
+                if rv["k"] == "ref" and rv.get("mut") and not (rv["pl"].get("p") and rv["pl"]["p"][0] == "*") and bb in loop:
+                    written_in.add(rv["pl"]["l"])
+            for bb, ct in b.calls():
+                (written_in if bb in loop else written_out).add(ct["dest"]["l"])
+            carried = {l for l in written_in if (l in written_out or l <= b.arg_count) and l not in iters and l > b.arg_count}
+            out.append((b, nb, loop, carried))
     return out
 
 
@@ -387,6 +464,29 @@ def rule_mirror(fx, rep):
     rep.obligation(good)
     if not good:
         bad("from_white_eval", f"from_white_eval negates for {res}; expected only for Black", fw)
+    # order independence: a term is a sum over the pieces of a set, and the set is scanned a1 -> h8 - an order the colour
+    # mirror does not preserve (it reverses the ranks). A branch inside such a loop that depends on a variable carried from
+    # one iteration to the next ("a passer was already counted on this file") makes the term depend on the scan order, hence
+    # differ between a position and its mirrored twin (seed C16-5a). Accumulators that are only added to are fine.
+    loops = 0
+    for b, nb, loop, carried in term_loops(fx):
+        loops += 1
+        n += 1
+        dep = None
+        for x in sorted(loop):
+            t = b.blocks[x]["term"]
+            if t["k"] != "switch" or "pl" not in t["discr"]:
+                continue
+            seen, _recs = b.slice_back([t["discr"]["pl"]["l"]])
+            hit = carried & seen
+            if hit:
+                dep = (x, sorted(b.local_name(l) or f"_{l}" for l in hit))
+                break
+        good = dep is None
+        rep.obligation(good)
+        if not good:
+            bad(f"order/{norm(b.name).split('::')[-1]}", f"`{b.name}`: a branch inside the loop over a piece set depends on `{dep[1][0]}`, which is carried from one iteration to the next: the term depends on the scan order (a1 upwards), which the colour mirror reverses, so a position and its mirrored twin are scored differently", b, b.line_of(dep[0]))
+    rep.sample({"rule": "C16-MIRROR", "piece_set_loops_checked_for_order_independence": loops})
     rep.rule("C16-MIRROR", n, 15, ok, "mirrored table construction and per-colour term combination")
 
 
@@ -819,6 +919,12 @@ PH = "src/engine/eval/phased_eval.rs"
 PS = "src/engine/eval/piece_square_tables.rs"
 PA = "src/engine/eval/params.rs"
 MUTANTS = [
+    {"name": "passed-pawn bonus once per file, first pawn in scan order (seed C16-5a)", "expect": "C16-MIRROR/order",
+     "edits": [("src/engine/eval/pawn_structure.rs", "    for pawn in our_pawns {\n        if is_passed(pawn, player, their_pawns) {\n            bonus += pst_value(player, pawn);",
+                "    let mut files_with_passer = Bitboard::EMPTY;\n\n    for pawn in our_pawns {\n        let file = pawn.file().bitboard();\n        if (files_with_passer & file).any() {\n            continue;\n        }\n        if is_passed(pawn, player, their_pawns) {\n            files_with_passer |= file;\n            bonus += pst_value(player, pawn);")]},
+    {"name": "king zone includes the king's own square: count up to 9 indexes a 9-entry table (seed C16-5b)", "expect": "C16-CONE",
+     "edits": [("src/engine/eval/mobility_and_king_safety.rs", "    let enemy_king = game.board.king(player.other()).single();\n    let enemy_king_surrounding_squares = tables::king_attacks(enemy_king);\n",
+                "    let enemy_king_bb = game.board.king(player.other());\n    let enemy_king_surrounding_squares = tables::king_attacks(enemy_king_bb.single()) | enemy_king_bb;\n")]},
     {"name": "endgame half decoded without the rounding term (seed C16-4b)", "expect": "C16-PACK",
      "edits": [("src/engine/eval/phased_eval.rs", "        WhiteEval(((self.0 + 0x8000) >> 16) as i16)", "        WhiteEval((self.0 >> 16) as i16)")]},
     {"name": "Bitboard::backward shifts Black's squares the wrong way", "expect": "C16-MIRROR/equivariant",
